@@ -6,12 +6,12 @@ ID = 'C17'
 LEVEL = 'exploration'
 BUDGET = {'quick': 90, 'thorough': 900}
 RULE = ('Cases = persistent worker kind x state at restart (never used, results unread, inputs still queued, closed, died by '
-        'exception, killed by signal, uncooperative target) x 1-3 consecutive restarts x with / without a caller-supplied results '
+        'exception, killed by signal, busy with a long cooperative call, uncooperative target) x 1-3 consecutive restarts x with / without a caller-supplied results '
         'pipe x restart(timeout) x schedule; every incarnation gets fresh unique inputs.')
 ASSUMPTIONS = ['responsive clock for the liveness clause "returns with a live worker"']
 
 PKINDS = ['pthread', 'pprocess', 'premote']
-STATES = ['unused', 'unread', 'queued', 'closed', 'died', 'killed', 'stuck', 'pipe-full']
+STATES = ['unused', 'unread', 'queued', 'closed', 'died', 'killed', 'stuck', 'pipe-full', 'busy']
 
 
 def gen_case(ctx, rng, i, tag='random'):
@@ -130,6 +130,13 @@ class Run:
                 except Exception as e:   # noqa
                     self.log.append(['enqueue-exc', type(e).__name__])
                 s.sleep(0.3)
+            elif st == 'busy':
+                # in the middle of a long, cooperative call (the timed wait of restart() expires, its terminate request does the job)
+                try:
+                    w.enqueue({'$busy': 60.0})
+                except Exception as e:   # noqa
+                    self.log.append(['enqueue-exc', type(e).__name__])
+                s.sleep(0.2)
             elif st == 'stuck':
                 # swallow-everything item: the old incarnation cannot be stopped gracefully
                 w2 = None
